@@ -57,9 +57,29 @@ def main(argv):
         finally:
             anchors.stop()
             probe.uninstall_all()
-    except BaseException:  # noqa
+    except BaseException as exc:  # noqa
         status = 'crash'
         err = traceback.format_exc()[-4000:]
+        try:
+            # an exception that left lentil's own code through a call the workload did not guard: the workloads only make calls
+            # that are valid for the property's quantifier, so this is an observation about the code under test, not about the
+            # harness.  (Raised in harness code - an oracle, a generator - it stays a crash: inconclusive.)
+            if kind == 'gen' and isinstance(exc, Exception) and not isinstance(exc, MemoryError):
+                root = os.path.join(os.path.realpath(core.repo_dir()), 'lentil') + os.sep
+                mine = os.path.join(os.path.realpath(core.VERIF_DIR), 'vp') + os.sep
+                deepest = None
+                for fr, _ in traceback.walk_tb(exc.__traceback__):
+                    fn = os.path.realpath(fr.f_code.co_filename)
+                    if fn.startswith(root):
+                        deepest = ('lentil', fr.f_code.co_name, os.path.basename(fn))
+                    elif fn.startswith(mine):
+                        deepest = ('vp', fr.f_code.co_name, os.path.basename(fn))
+                if deepest and deepest[0] == 'lentil':
+                    ctx.violation(f'workload|raises={type(exc).__name__}|{deepest[2]}:{deepest[1]}',
+                                  f'a call made by the workload raised {type(exc).__name__} inside lentil ({deepest[2]}:{deepest[1]}): {str(exc)[:300]}',
+                                  {'traceback': err[-1500:]})
+        except Exception:
+            pass
     res = ctx.result()
     res['status'] = status
     res['error'] = err
